@@ -267,6 +267,8 @@ class MetadataGenerator:
             meta_type = DUnion(*types)
             if len(meta_type.types) == 1:
                 meta_type = meta_type.types[0]
+            elif not meta_type.types:
+                meta_type = Unknown
 
             if optional:
                 return DOptional(meta_type)
